@@ -41,6 +41,11 @@ def scenarios_for(prop, tier, rng):
         bg = agentgen.big_scenarios(prop)
         sc += bg if thorough or prop == "C02" else bg[1:]
         counts["big_policy_scenarios"] = len(bg) if thorough or prop == "C02" else 1
+        sc += agentgen.boundary_scenarios(prop)
+        counts["boundary_value_scenarios"] = 1
+        if prop == "C01" or thorough:
+            sc += agentgen.volume_scenarios(prop)
+            counts["volume_scenarios(12 x 400 ranges)"] = 1
         if prop == "C02":
             xc, r3 = tlc_cases("foreign", 0, f"{prop}-gen-foreign"); gens.append(r3)
             sc += agentgen.foreign_scenarios(xc, prop)
@@ -72,6 +77,8 @@ def scenarios_for(prop, tier, rng):
             tr = agentgen.transient_scenarios(prop)
             sc += tr; counts["identical_expressions_with_a_transient_error"] = len(tr)
         return sc, gens, counts
+    if prop == "C10":
+        return agentgen.name_scenarios(prop), gens, {"tricky_policy_names": len(agentgen.TRICKY_NAMES)}
     if prop == "C14":
         cases, r = tlc_cases("garble", 1 if thorough else 0, f"{prop}-gen-garble"); gens.append(r)
         return agentgen.garble_scenarios(cases, prop), gens, {"damaged_reply_cases": len(cases)}
@@ -159,7 +166,7 @@ def run_and_validate(prop, tier, scenarios, wd):
     stats, viols = validate_trace("AgentTrace", trace, prop, f"{prop}-{tier}", TRACE_CFG, nchunks=8)
     return trace, stats, viols
 
-def side_run(prop, tier, verdict):
+def side_run(prop, tier, verdict, any_rule=False):
     """Agent part of a property whose main check lives in another engine (C13: the router's replies and
     configuration data in every style).  Reports violations through `verdict`, returns coverage facts."""
     wd = workdir(f"{prop}-{tier}-agent")
@@ -170,7 +177,7 @@ def side_run(prop, tier, verdict):
     for v in viols:
         if v["prop"] == "TOOL":
             raise ToolError(f"{v['rule']} in case {v.get('case')}: the fake router and Junos.tla disagree")
-        if v["prop"] == prop:
+        if v["prop"] == prop or any_rule:
             verdict.report(v["rule"], v["disc"], {"property": prop, "rule": v["rule"], "disc": v["disc"], "occurrences": v.get("n", 1),
                                                   "scenario": bycase.get(v.get("case")), "events": trace_slice(trace, v.get("case"), 80)},
                            detail=f"case={v.get('case')} n={v.get('n', 1)}")
